@@ -117,10 +117,10 @@ var wrapKinds = []struct {
 	n int // number of variants
 }{
 	{"if", 5}, {"switch", 2}, {"loop", 4}, {"try-body", 8}, {"catch", 2}, {"finally", 5},
-	{"func", 7}, {"funcvar", 2}, {"anon", 2}, {"module", 1}, {"go", 5}, {"defer", 6}, {"expr", 34}, {"hostcallback", 2},
+	{"func", 7}, {"funcvar", 2}, {"anon", 2}, {"module", 1}, {"go", 5}, {"defer", 6}, {"expr", nExpr}, {"hostcallback", 2},
 }
 
-const nExpr = 34
+const nExpr = 37
 
 func isSpinTick(core string) bool {
 	switch core {
@@ -517,6 +517,13 @@ func wrap(w W, body, u string) string {
 			return def + "x" + u + " = " + e + " > 0 ? tick() : tick()"
 		case 33:
 			return def + "for q" + u + " = 0; " + e + "; q" + u + "++ { tick() }"
+		case 34:
+			// a left side that fails by itself (not by interruption): the cancel may land on the very poll that follows it
+			return def + "nosuch" + u + " ?? " + e
+		case 35:
+			return def + "x" + u + " = [1][5] ?? (nosuch" + u + " ?? " + e + ")"
+		case 36:
+			return def + "for q" + u + " = 0; q" + u + " < 3; q" + u + "++ { z" + u + " = nosuch" + u + " ?? tick() }\n" + e
 		default:
 			return def + "x" + u + " = 1\nx" + u + " += " + e
 		}
